@@ -3,7 +3,8 @@
 Wave 3: + translator `g5_kernel_call` (-> `Gen/KernelCall.lean`; theorems `Props/C06Kernels.lean`: every regenerated kernel
 is pairwise, the C06 laws for them, `Kernel.__call__` preparation / diag decision) and parts H (history on one kernel
 object under every global setting), I (wrappers without own batch_shape around batched kernels), J (last_dim_is_batch
-under every lazy operation), K (regenerated kernels / preparation / decisions executed by the driver vs the real code).
+under every lazy operation), L (kernel-algebra / operator histories on one object), M (diag vs diagonal with unequal ARD
+lengthscales for every family incl. derivative kernels), K (regenerated kernels / preparation / decisions executed by the driver vs the real code).
 
 Tie: translator G3 (`harness/translate/g3_lazy_index.py` -> `Gen/LazyIndex.lean`: multi-output slice division
 of `LazyEvaluatedKernelTensor._getitem`, `active_dims` handling of `Kernel.__getitem__` / `expand_batch`) AND
@@ -1280,6 +1281,9 @@ def correspondence(ctx, want_driver=True):
         X.part_H(ctx, seedval)
         X.part_I(ctx, seedval)
         X.part_J(ctx, seedval)
+        X.part_L(ctx, seedval)
+        X.part_M(ctx, seedval)
+        X.part_N(ctx, seedval)
         if want_driver:
             part_A(ctx, lines, recs)
             part_C(ctx, lines, recs, seedval)
@@ -1290,7 +1294,7 @@ def correspondence(ctx, want_driver=True):
     if want_driver:
         compare_driver(ctx, lines, recs)
     # run.py prints the first 8 distinct keys: one representative per defect class first
-    prio = ["history:", "wrapper-batch:", "ldb:", "active_dims:column-order", "aliasing:", "active_dims:column-selection", "kernel-call", "kernel-getitem:active_dims", "expand_batch:active_dims", "getitem:multiout", "getitem:batch-slice-of-broadcast-dim",
+    prio = ["algebra-history:", "diag-ard:", "checkpoint-kernel:", "history:", "wrapper-batch:", "ldb:", "active_dims:column-order", "aliasing:", "active_dims:column-selection", "kernel-call", "kernel-getitem:active_dims", "expand_batch:active_dims", "getitem:multiout", "getitem:batch-slice-of-broadcast-dim",
             "repeat:", "diag:", "transpose:", "blocks:", "lazy-vs-eager", "getitem:values", "getitem:empty", "kernel-getitem",
             "expand_batch", "rejects-valid-index", "linear_operator"]
 
@@ -1317,6 +1321,18 @@ def replay(ctx, payload):
     try:
         c = payload["case"]
         seedval = payload.get("seed", 0)
+        if c.get("part") in ("algebra-history", "diag-ard", "checkpoint"):
+            from props import _c06_extra as X
+            sub = Ctx0()
+            if c["part"] == "checkpoint":
+                X.part_N(sub, seedval, only=(c["kernel"], c["kernel_batch"], c["split"]))
+                return not sub.failures
+            if c["part"] == "algebra-history":
+                X.part_L(sub, seedval, only=(c["operand"], c["kernel_batch"], c["op"]))
+            else:
+                X.part_M(sub, seedval, only=(c["kernel"], c["kernel_batch"], c["x_batch"]))
+            return not any(f[2].get("what") == c.get("what") and f[2].get("lazy") == c.get("lazy")
+                           and f[2].get("phase") == c.get("phase") for f in sub.failures3)
         if c.get("part") in ("history", "wrapper-batch", "ldb"):
             from props import _c06_extra as X
             sub = Ctx0()
